@@ -199,7 +199,7 @@ func (b *Builder) Stmt(n *Node) *jen.Statement {
 		}
 		var recv reflect.Value
 		if s == nil {
-			if b.form(it, first) != "func" {
+			if f := b.form(it, first); f != "func" && f != "helperfunc" {
 				s = jen.Add()
 				recv = reflect.ValueOf(s)
 			}
@@ -242,6 +242,9 @@ func (b *Builder) item(recv reflect.Value, it *Node) *jen.Statement {
 	case "tok":
 		switch it.T {
 		case "id":
+			if b.Form != nil && it.Form == "" && it.V != "" && strings.HasPrefix(b.Form(it, false), "helper") {
+				return call(recv, title(it.V)) // the dedicated helper of a predeclared identifier: Int(), String(), Err() ...
+			}
 			return call(recv, "Id", it.V)
 		case "op":
 			if it.V == "" {
